@@ -1,6 +1,7 @@
 package main
 
 import (
+	"encoding/json"
 	"flag"
 	"fmt"
 	"os"
@@ -117,6 +118,17 @@ func traceString(tr []TraceEntry) string {
 				b[i] = byte(c)
 			}
 			parts = append(parts, fmt.Sprintf("%s=%q", e.Name, string(b)))
+		case json.RawMessage:
+			var xs []int
+			if json.Unmarshal(v, &xs) == nil && len(v) > 0 && v[0] == '[' {
+				b := make([]byte, len(xs))
+				for i, c := range xs {
+					b[i] = byte(c)
+				}
+				parts = append(parts, fmt.Sprintf("%s=%q", e.Name, string(b)))
+			} else {
+				parts = append(parts, fmt.Sprintf("%s=%s", e.Name, string(v)))
+			}
 		default:
 			parts = append(parts, fmt.Sprintf("%s=%v", e.Name, v))
 		}
@@ -141,7 +153,3 @@ func parseParams(s string) map[string]int {
 	return out
 }
 
-func cmdCheck(args []string) int {
-	fmt.Fprintln(os.Stderr, "check: not implemented yet")
-	return 2
-}
